@@ -173,6 +173,7 @@ def run_mock(rec, rnd, case, cycles):
         sim.add_mock(mock)
 
         async def drv(ctx):
+            await ctx.tick()  # start every driven cycle right after a clock edge (a glitch delay must never span an edge)
             for cyc in range(cycles):
                 a = rnd.randrange(256)
                 ctx.set(dut.arg, a)
